@@ -18,6 +18,7 @@ import (
 	"sort"
 	"strings"
 	"sync"
+	"sync/atomic"
 	"testing"
 	"time"
 
@@ -103,6 +104,7 @@ type move struct {
 
 type writer struct {
 	id      int
+	r       int // root index of the parked upload
 	loc     *storage.SectorLocation
 	reached chan struct{}
 	release chan error
@@ -117,6 +119,7 @@ type wrapStore struct {
 	mu       sync.Mutex
 	lastLoc  *storage.SectorLocation
 	failNext bool
+	failDB   bool // one-shot: StoreSector fails before it touched the database (nothing happened)
 	pausing  *writer
 	inj      []int
 	moves    []move
@@ -139,6 +142,13 @@ func (ws *wrapStore) Volume(id int64) (storage.Volume, error) {
 }
 
 func (ws *wrapStore) StoreSector(root types.Hash256, fn storage.StoreFunc) error {
+	ws.mu.Lock()
+	db := ws.failDB
+	ws.failDB = false
+	ws.mu.Unlock()
+	if db {
+		return errInjected
+	}
 	return ws.Store.StoreSector(root, func(loc storage.SectorLocation) error {
 		ws.mu.Lock()
 		l := loc
@@ -218,6 +228,7 @@ type volFile struct {
 
 	id       int64
 	failSync int                  // injected fsync failure: 0 none, 1 the next Sync, 2 every Sync
+	wfault   *atomic.Int32        // shared by all data files: 1 = the next WriteAt of any file fails (ENOSPC-like, nothing written)
 	syncLog  *[]syncCall          // the fsyncs made, in order (shared with the world)
 	logMu    *sync.Mutex
 }
@@ -231,6 +242,9 @@ func (f *volFile) ReadAt(p []byte, off int64) (int, error) { return f.inner.Read
 func (f *volFile) Close() error                            { return f.inner.Close() }
 
 func (f *volFile) WriteAt(p []byte, off int64) (int, error) {
+	if f.wfault != nil && f.wfault.CompareAndSwap(1, 0) {
+		return 0, errInjected // the data write fails: nothing reaches the file
+	}
 	n, err := f.inner.WriteAt(p, off)
 	f.mu.Lock()
 	if n > 0 {
@@ -315,6 +329,8 @@ type world struct {
 	lastRoot int // root of the last upload a syncrace made (replay files may refer to it as L)
 	syncLog  []syncCall
 	logMu    sync.Mutex
+	wfault   atomic.Int32 // armed data-write fault, shared by the data files
+	readBack bool         // generators: every failed Write/StoreSector is followed by a read of its root
 	volPath map[int64]string
 	nvol    int
 	metaInt map[types.Hash256]int
@@ -360,7 +376,7 @@ func (w *world) open() {
 
 // wrapVolume puts the recording wrapper around the data file of a loaded volume.
 func (w *world) wrapVolume(id int64) {
-	f := &volFile{dirty: map[uint64]bool{}, id: id, syncLog: &w.syncLog, logMu: &w.logMu}
+	f := &volFile{dirty: map[uint64]bool{}, id: id, syncLog: &w.syncLog, logMu: &w.logMu, wfault: &w.wfault}
 	if w.vm.VerifWrapVolumeData(id, func(inner storage.VerifVolumeData) storage.VerifVolumeData {
 		f.inner = inner
 		return f
@@ -1246,16 +1262,61 @@ func (w *world) doVmSetRO(v int64, b bool) {
 	w.line(fmt.Sprintf("vmsetro v=%d b=%d", v, b2i(b)), "res="+res)
 }
 
+// arm injects one failure into the next store of a sector:
+//
+//	cb   the store's callback returns an error before the data write (slot committed, then rolled back)
+//	data the data file's WriteAt fails inside VolumeManager's callback (ENOSPC / I/O error), then rollback
+//	db   StoreSector fails before it touched the database
+func (w *world) arm(fault string) {
+	w.ws.mu.Lock()
+	w.ws.lastLoc, w.ws.failNext, w.ws.failDB = nil, fault == "cb", fault == "db"
+	w.ws.mu.Unlock()
+	if fault == "data" {
+		w.wfault.Store(1)
+	} else {
+		w.wfault.Store(0)
+	}
+}
+
+func (w *world) disarm() {
+	w.ws.mu.Lock()
+	w.ws.failNext, w.ws.failDB = false, false
+	w.ws.mu.Unlock()
+	w.wfault.Store(0)
+}
+
+func faultArg(fault string) string {
+	if fault == "" {
+		return ""
+	}
+	return " fault=" + fault
+}
+
+func failedRes(res string) bool { return res == "err" || strings.HasPrefix(res, "panic") }
+
+// afterFailed: a store that reported failure must have had no visible effect; the
+// generators look at the root through the VolumeManager (cache first) right away.
+func (w *world) afterFailed(r int, res string) {
+	if w.readBack && failedRes(res) {
+		w.doRead(r)
+	}
+}
+
 // write hands buffer p to VolumeManager.Write under root r.
 func (w *world) write(r int, p *[sectorSize]byte, fail bool) (string, *storage.SectorLocation) {
-	w.ws.mu.Lock()
-	w.ws.lastLoc, w.ws.failNext = nil, fail
-	w.ws.mu.Unlock()
+	if fail {
+		return w.writeF(r, p, "cb")
+	}
+	return w.writeF(r, p, "")
+}
+
+func (w *world) writeF(r int, p *[sectorSize]byte, fault string) (string, *storage.SectorLocation) {
+	w.arm(fault)
 	res := try(func() error { return w.vm.Write(w.root(r), p) })
 	w.ws.mu.Lock()
 	loc := w.ws.lastLoc
-	w.ws.failNext = false
 	w.ws.mu.Unlock()
+	w.disarm()
 	if res == "ok" {
 		if loc != nil {
 			res = "placed"
@@ -1267,34 +1328,47 @@ func (w *world) write(r int, p *[sectorSize]byte, fail bool) (string, *storage.S
 	return res, loc
 }
 
-func (w *world) doWrite(r int) {
+func (w *world) doWrite(r int) { w.doWriteF(r, "") }
+
+func (w *world) doWriteF(r int, fault string) {
 	p := sectorData(r)
 	k := w.bufID(p)
-	res, loc := w.write(r, p, false)
+	res, loc := w.writeF(r, p, fault)
 	w.tr.Count("write:" + strings.SplitN(res, ":", 2)[0])
-	w.line(fmt.Sprintf("write r=%d", r), fmt.Sprintf("res=%s loc=%s buf=%d", res, fmtLoc(loc), k))
+	if fault != "" {
+		w.tr.Count("write_fault:" + fault + ":" + strings.SplitN(res, ":", 2)[0])
+	}
+	w.line(fmt.Sprintf("write r=%d%s", r, faultArg(fault)), fmt.Sprintf("res=%s loc=%s buf=%d", res, fmtLoc(loc), k))
+	w.afterFailed(r, res)
 }
 
-func (w *world) doWbuf(r, b int) {
+func (w *world) doWbuf(r, b int) { w.doWbufF(r, b, "") }
+
+func (w *world) doWbufF(r, b int, fault string) {
 	if b >= len(w.bufs) {
 		return
 	}
-	res, loc := w.write(r, w.bufs[b], false)
-	w.line(fmt.Sprintf("wbuf r=%d b=%d", r, b), fmt.Sprintf("res=%s loc=%s buf=%d", res, fmtLoc(loc), b))
+	res, loc := w.writeF(r, w.bufs[b], fault)
+	w.line(fmt.Sprintf("wbuf r=%d b=%d%s", r, b, faultArg(fault)), fmt.Sprintf("res=%s loc=%s buf=%d", res, fmtLoc(loc), b))
+	w.afterFailed(r, res)
 }
 
-func (w *world) doStoreTemp(r int, exp uint64) {
+func (w *world) doStoreTemp(r int, exp uint64) { w.doStoreTempF(r, exp, "") }
+
+func (w *world) doStoreTempF(r int, exp uint64, fault string) {
 	p := sectorData(r)
 	k := w.bufID(p)
-	w.ws.mu.Lock()
-	w.ws.lastLoc = nil
-	w.ws.mu.Unlock()
+	w.arm(fault)
 	res := try(func() error { return w.vm.StoreSector(w.root(r), p, exp) })
+	w.ws.mu.Lock()
 	loc := w.ws.lastLoc
-	if loc != nil && res != "nospace" {
+	w.ws.mu.Unlock()
+	w.disarm()
+	if loc != nil && res == "ok" {
 		w.dirty[[2]uint64{uint64(loc.Volume), loc.Index}] = true
 	}
-	w.line(fmt.Sprintf("storetemp r=%d exp=%d", r, exp), fmt.Sprintf("res=%s loc=%s buf=%d", res, fmtLoc(loc), k))
+	w.line(fmt.Sprintf("storetemp r=%d exp=%d%s", r, exp, faultArg(fault)), fmt.Sprintf("res=%s loc=%s buf=%d", res, fmtLoc(loc), k))
+	w.afterFailed(r, res)
 }
 
 // reserve starts a Write and parks it inside StoreSector's callback, i.e.
@@ -1305,7 +1379,7 @@ func (w *world) doReserve(id, r int) {
 	}
 	p := sectorData(r)
 	k := w.bufID(p)
-	wr := &writer{id: id, reached: make(chan struct{}), release: make(chan error, 1), done: make(chan error, 1)}
+	wr := &writer{id: id, r: r, reached: make(chan struct{}), release: make(chan error, 1), done: make(chan error, 1)}
 	w.ws.mu.Lock()
 	w.ws.pausing = wr
 	w.ws.mu.Unlock()
@@ -1334,18 +1408,27 @@ func (w *world) doReserve(id, r int) {
 	w.line(fmt.Sprintf("reserve w=%d r=%d", id, r), fmt.Sprintf("res=%s loc=%s buf=%d", res, fmtLoc(wr.loc), k))
 }
 
-func (w *world) doFinish(id int, ok bool) {
+func (w *world) doFinish(id int, ok bool) { w.doFinishF(id, ok, "") }
+
+// doFinishF releases a parked writer: ok lets the data write happen; !ok fails the
+// callback before the data write (fault "") or at the data file's WriteAt (fault "data").
+func (w *world) doFinishF(id int, ok bool, fault string) {
 	wr, found := w.writers[id]
 	if !found {
 		return
 	}
 	delete(w.writers, id)
-	if ok {
+	switch {
+	case ok:
 		wr.release <- nil
-	} else {
+	case fault == "data":
+		w.wfault.Store(1)
+		wr.release <- nil
+	default:
 		wr.release <- errInjected
 	}
 	err := <-wr.done
+	w.wfault.Store(0)
 	res := classErr(err)
 	if err != nil && strings.HasPrefix(err.Error(), "panic:") {
 		res = err.Error()
@@ -1353,7 +1436,10 @@ func (w *world) doFinish(id int, ok bool) {
 	if err == nil && wr.loc != nil {
 		w.dirty[[2]uint64{uint64(wr.loc.Volume), wr.loc.Index}] = true
 	}
-	w.line(fmt.Sprintf("finish w=%d ok=%d", id, b2i(ok)), "res="+res)
+	w.line(fmt.Sprintf("finish w=%d ok=%d%s", id, b2i(ok), faultArg(fault)), "res="+res)
+	if wr.r >= 0 {
+		w.afterFailed(wr.r, res)
+	}
 }
 
 func (w *world) doRead(r int) {
@@ -1364,8 +1450,13 @@ func (w *world) doRead(r int) {
 		k = w.bufID(p)
 		c = classify(p)
 	}
+	// the store's view of the same root
+	st := 0
+	if _, err := w.store.SectorLocation(w.root(r)); err == nil {
+		st = 1
+	}
 	w.tr.Count("read:" + res)
-	w.tr.Line(fmt.Sprintf("read r=%d", r), fmt.Sprintf("res=%s buf=%d c=%s intact=%d", res, k, c, b2i(c == fmt.Sprint(r))))
+	w.tr.Line(fmt.Sprintf("read r=%d", r), fmt.Sprintf("res=%s buf=%d c=%s intact=%d st=%d", res, k, c, b2i(c == fmt.Sprint(r)), st))
 }
 
 // mutate patches buffer b in place so that it holds the data of sector `to`
